@@ -15,6 +15,8 @@
 package ggql
 
 import (
+	"fmt"
+	"math"
 	"strconv"
 )
 
@@ -56,6 +58,24 @@ func (*int64Scalar) CoerceIn(v interface{}) (interface{}, error) {
 	return v, err
 }
 
+// int64FromFloat64 converts to an int64, dropping the fraction, or fails if
+// out of range or not a number.
+func int64FromFloat64(f float64) (interface{}, error) {
+	// -2^63 and 2^63 are exact float64 values, 2^63 itself does not fit.
+	if -9223372036854775808.0 <= f && f < 9223372036854775808.0 {
+		return int64(f), nil
+	}
+	return nil, fmt.Errorf("%w %g into a Int64, out of range", ErrCoerce, f)
+}
+
+// int64FromUint64 converts to an int64 or fails if out of range.
+func int64FromUint64(u uint64) (interface{}, error) {
+	if u <= math.MaxInt64 {
+		return int64(u), nil
+	}
+	return nil, fmt.Errorf("%w %d into a Int64, out of range", ErrCoerce, u)
+}
+
 // CoerceOut coerces a result value into a type for the scalar.
 func (t *int64Scalar) CoerceOut(v interface{}) (interface{}, error) {
 	var err error
@@ -63,9 +83,9 @@ func (t *int64Scalar) CoerceOut(v interface{}) (interface{}, error) {
 	case nil:
 	// remains nil
 	case float32:
-		v = int64(tv)
+		v, err = int64FromFloat64(float64(tv))
 	case float64:
-		v = int64(tv)
+		v, err = int64FromFloat64(tv)
 	case int:
 		v = int64(tv)
 	case int8:
@@ -77,7 +97,7 @@ func (t *int64Scalar) CoerceOut(v interface{}) (interface{}, error) {
 	case int64:
 		// ok as is
 	case uint:
-		v = int64(tv)
+		v, err = int64FromUint64(uint64(tv))
 	case uint8:
 		v = int64(tv)
 	case uint16:
@@ -85,11 +105,13 @@ func (t *int64Scalar) CoerceOut(v interface{}) (interface{}, error) {
 	case uint32:
 		v = int64(tv)
 	case uint64:
-		v = int64(tv)
+		v, err = int64FromUint64(tv)
 	case string:
 		var i int64
 		if i, err = strconv.ParseInt(tv, 10, 64); err == nil {
 			v = i
+		} else {
+			v = nil
 		}
 	default:
 		err = newCoerceErr(tv, "Int64")
